@@ -355,7 +355,7 @@ def prob_case(ctx, rep, rng):
 def run(ctx, rep):
     rng = ctx.rng
     rep.rule = ("populations of 1..30 with ties, duplicates (same object twice), NaN, +-inf, equal ages; all targets; selection_size in {2,3,5,8}; "
-                "tournament sizes 1..n; crowding on 4..20 individuals; distinct = distinct (operator, population, draws); "
+                "tournament sizes 1..n; crowding on 4..20 individuals; fitness values as order-preserving images of the keys (halves, large and close, tiny, adjacent doubles); distinct = distinct (operator, population, draws); "
                 "non-trivial = something had to be removed / compared")
     rep.assumptions = ["the index lists / samples drawn by numpy are duplicate-free and in range (logged; the theorems cover all such draws)"]
     lines, meta = [], []
